@@ -284,6 +284,10 @@ Section Spec.
         let dig := hash data in
         let de := sdesc media dig data in
         let store (_ : unit) :=
+          if immutable_tags cfg
+             && match sman l r dig with Some (m, _) => negb (beqb m media) | None => false end
+          then (st, Err (E DENIED (s "stored under another media type")))
+          else
           if beqb media [] || negb (valid_digest dig) then (st, Err (e_plain (s "rejected")))
           else if negb (acceptable l r media data) then (st, Err (e_plain (s "rejected")))
           else
